@@ -115,7 +115,9 @@ func t1Scenario(withVerify bool) func() instance { return t1ScenarioH(withVerify
 
 // t1ScenarioH with history: the shared issuer has already turned away a malformed request and
 // served an honest one (sequentially, by the controller) before the concurrent calls start.
-func t1ScenarioH(withVerify, history bool) func() instance { return t1ScenarioK(withVerify, history, false) }
+func t1ScenarioH(withVerify, history bool) func() instance {
+	return t1ScenarioK(withVerify, history, false)
+}
 
 // t1ScenarioK with usedKey: the owner has used the key object (asked for its public key and
 // serialised it) before handing it to the issuer, and goes on holding it.
@@ -453,7 +455,7 @@ func attesterScenario() instance {
 	kid := iss.TokenKeyID()
 	nk := iss.NameKey()
 	type trip struct {
-		req               type3.RateLimitedTokenRequest
+		req              type3.RateLimitedTokenRequest
 		blind, clientKey []byte
 	}
 	mk := func(i int) trip {
@@ -657,9 +659,11 @@ func ecdsaScenario(variant int) func() instance {
 			}
 		case 2:
 			// two blinding keys and two contexts in use at once on one signing key
-			bk2, err := ecdsa.CreateKey(curve, fill("bk2", 48))
+			// the second blinding key is a raw 48-byte string above the group order (legal: the key is
+			// hashed, not used as a scalar); two of the three calls share it
+			bk2, err := ecdsa.CreateKey(curve, bytes.Repeat([]byte{0xff}, 48))
 			must(err)
-			refBk2, _ := ecdsa.CreateKey(curve, fill("bk2", 48))
+			refBk2, _ := ecdsa.CreateKey(curve, bytes.Repeat([]byte{0xff}, 48))
 			ctxA, ctxB := []byte("context A"), []byte("context B, longer")
 			wantA, err := ecdsa.BlindPublicKeyWithContext(curve, &refSk.PublicKey, refBk, ctxA)
 			must(err)
@@ -670,7 +674,7 @@ func ecdsaScenario(variant int) func() instance {
 			in.bodies = []func(){
 				func() { gotA, eA = ecdsa.BlindPublicKeyWithContext(curve, &sk.PublicKey, bk, ctxA) },
 				func() { gotB, eB = ecdsa.BlindPublicKeyWithContext(curve, &sk.PublicKey, bk2, ctxB) },
-				func() { r1, s1, e1 = ecdsa.BlindKeySignWithContext(threadReader{}, sk, bk, h1[:], ctxA) },
+				func() { r1, s1, e1 = ecdsa.BlindKeySignWithContext(threadReader{}, sk, bk2, h1[:], ctxB) },
 			}
 			in.check = func() (string, error) {
 				std := func(p *ecdsa.PublicKey) *stdecdsa.PublicKey { return &stdecdsa.PublicKey{Curve: curve, X: p.X, Y: p.Y} }
@@ -680,7 +684,7 @@ func ecdsaScenario(variant int) func() instance {
 				if eB != nil || gotB.X.Cmp(wantB.X) != 0 || gotB.Y.Cmp(wantB.Y) != 0 {
 					return "", fmt.Errorf("concurrent BlindPublicKeyWithContext (key 2, context B) differs from the sequential result (%v)", eB)
 				}
-				if e1 != nil || !stdecdsa.Verify(std(wantA), h1[:], r1, s1) {
+				if e1 != nil || !stdecdsa.Verify(std(wantB), h1[:], r1, s1) {
 					return "", fmt.Errorf("concurrent BlindKeySignWithContext produced a signature that does not verify under the key blinded with the same key and context (%v)", e1)
 				}
 				return "ok", nil
